@@ -358,6 +358,10 @@ class ManifestState:
     POST_SIGNED_DATA = 4
 
 
+# the longest line (in bytes) accepted inside a cleartext signature
+MAX_SIGNED_LINE_LENGTH = 16384
+
+
 class ManifestFile:
     """
     A class encapsulating a single Manifest file. It supports reading
@@ -423,6 +427,14 @@ class ManifestFile:
                 if line == '-----BEGIN PGP SIGNATURE-----\n':
                     state = ManifestState.SIGNATURE
                     continue
+                # GnuPG silently truncates over-long cleartext lines
+                # (20000 bytes) when verifying, so the rest of such
+                # a line would not be covered by the signature
+                if (len(line) > MAX_SIGNED_LINE_LENGTH // 4
+                        and len(line.encode('utf8', 'surrogatepass'))
+                        > MAX_SIGNED_LINE_LENGTH):
+                    raise ManifestSyntaxError(
+                        'Line too long inside OpenPGP signed data')
                 # dash-escaping, RFC 4880 says any line can suffer from it
                 if line.startswith('- '):
                     line = line[2:]
